@@ -9,7 +9,7 @@
           26 = C15_rate: firing-rate normaliser is not n_i * n_j * bin / duration
           3  = input outside the stated regime (harness bug): Spec.params_regime (the hypothesis of C15_params,
                checked on the abstract input: dyadic rate/bin/window, every time s/rate a float64), sorted train,
-               at most 65536 spikes (C15_count_bound), valid id list *)
+               at most 2^32 spikes (C15_int64_exact), valid id list *)
 From Coq Require Import ZArith List Lia Bool QArith Qround.
 From PV Require Export Base.NpList Base.NpSearch C15.Model C15.Spec.
 Import ListNotations.
@@ -17,7 +17,9 @@ Open Scope Z_scope.
 
 Inductive input :=
 | InCCG (t labels : list Z) (ids : option (list Z)) (rate bin win : Q) (symm : bool)
-| InRate (labels : list Z) (ids : option (list Z)) (bin : Q) (dur : option Q).
+| InRate (labels : list Z) (ids : option (list Z)) (bin : Q) (dur : option Q)
+(* n spikes at sample s, all of cluster c, cluster_ids = [c]: judged against the closed form of C15_coincident *)
+| InCoinc (n s c : Z) (rate bin win : Q) (symm : bool).
 
 (* a float64 printed exactly: m * 2^e ; TBad = nan / inf *)
 Inductive tok := TF (m e : Z) | TBad.
@@ -61,7 +63,7 @@ Definition labels_ok (labels : list Z) (ids : option (list Z)) : bool :=
   end.
 
 Definition ccg_regime (t labels : list Z) (ids : option (list Z)) (rate bin win : Q) : bool :=
-  sortedZb t && Nat.eqb (length t) (length labels) && (Z.of_nat (length t) <=? 65536) &&   (* C15_count_bound: no int32 count can wrap *)
+  sortedZb t && Nat.eqb (length t) (length labels) && (Z.of_nat (length t) <=? 2 ^ 32) &&   (* C15_int64_exact: no count of the int64 array can wrap *)
   labels_ok labels ids &&
   params_regime t rate bin win &&          (* Spec.v: the hypothesis of C15_params, incl. "time = s/rate is a float64" *)
   (1 <=? binsize_of rate bin).
@@ -73,6 +75,10 @@ Definition rate_regime (labels : list Z) (ids : option (list Z)) (bin : Q) (dur 
   | None => true
   | Some d => Qle_bool 0 d && dyadic 20 20 d
   end.
+
+Definition coinc_regime (n s c : Z) (rate bin win : Q) : bool :=
+  (0 <=? n) && (n <=? 2 ^ 32) && (0 <=? c) && (c <? 2 ^ 20) &&
+  params_regime [s] rate bin win && (1 <=? binsize_of rate bin).
 
 (* exact_f64 (Spec.v): every entry of the exact result is a float64 (so the float computation is exact) *)
 Definition check (c : case) : list Z :=
@@ -98,6 +104,26 @@ Definition check (c : case) : list Z :=
                else flag 21 (onesided_b t labels cl bs W C))
           | _ => if symm then [1; 21; 22; 23; 24] else [1; 21; 22]
           end
+      end
+  | InCoinc n s c rate bin win symm, o =>
+      if negb (coinc_regime n s c rate bin win) then [3] else
+      let W := half_of bin win in
+      let w := Z.to_nat W in
+      let E1 := coinc_onesided n W in
+      let E := if symm then coinc_sym n W else E1 in
+      (* self-check on short trains: the closed form is what the model computes (C15_coincident: for every n) *)
+      (* (an `if`, not `&&`: vm_compute is call-by-value and must not run the quadratic model on a long train) *)
+      if (if n <=? 64 then negb (opt_eqb cube_eqb (correlograms (repeat s (Z.to_nat n)) (repeat c (Z.to_nat n)) (Some [c])
+                                                                rate bin win symm) E) else false) then [3] else
+      match o with
+      | ObsCCG shape C =>
+          let nb := if symm then 2 * W + 1 else W + 1 in
+          flag 1 (cube_eqb E C) ++
+          flag 22 (zlist_eqb shape [1; 1; nb] && shape_b 1 1 (Z.to_nat nb) C) ++
+          (if symm then
+             flag 21 (sym_pos_b E1 C 1 w) ++ flag 23 (sym_mirror_b C 1) ++ flag 24 (sym_centre_b E1 C 1 w)
+           else flag 21 (cube_eqb C E1))
+      | _ => if symm then [1; 21; 22; 23; 24] else [1; 21; 22]
       end
   | InRate labels ids bin dur, o =>
       if negb (rate_regime labels ids bin dur) then [3] else
